@@ -102,6 +102,10 @@ type differ struct {
 	r       *core.Run
 	fq      *fqEngine
 	section string
+	// pair: when set (L2 fromjson-value), a difference explained by the decode value
+	// rewrite is not folded into the one composition class but recorded under its own
+	// (probe, JSON type) signature, so that a NEW deviating primitive alarms
+	pair string
 }
 
 var identRe = regexp.MustCompile(`@?[A-Za-z_][A-Za-z_0-9]*`)
